@@ -33,6 +33,12 @@ instance : SMul Int (RVec n) := ⟨fun c a => ⟨a.v.map ((c : Rat) * ·)⟩⟩
 /-- real Euclidean inner product `Σ aᵢ bᵢ` -/
 def dot (a b : RVec n) : Rat := (Vector.zipWith (· * ·) a.v b.v).foldl (· + ·) 0
 
+/-- `‖a‖₁ = Σ |aᵢ|` (`jft.norm(·, ord=1)`) -/
+def norm1 (a : RVec n) : Rat := a.v.foldl (fun acc x => acc + (if x < 0 then -x else x)) 0
+
+/-- `‖a‖_∞ = max |aᵢ|` (`jft.norm(·, ord=inf)`) -/
+def normInf (a : RVec n) : Rat := a.v.foldl (fun acc x => let y := if x < 0 then -x else x; if acc < y then y else acc) 0
+
 /-- dense matrix: `k` rows of length `n` -/
 abbrev Mat (k n : Nat) := Vector (RVec n) k
 
